@@ -202,7 +202,10 @@ func nilGuard(s ast.Stmt, params []string) (tGuard, bool) {
 	return tGuard{subj, id.Name}, true
 }
 
-func leadingGuards(body []ast.Stmt, params []string) ([]tGuard, []ast.Stmt) {
+// leadingGuards: the maximal prefix of nil guards.  The statement the prefix stops at must not look like a
+// guard of another shape (an init-less `if` whose condition mentions nil and whose body only returns): such a
+// guard would silently drop out of the table, so it is an error instead.
+func leadingGuards(body []ast.Stmt, params []string) ([]tGuard, []ast.Stmt, error) {
 	var gs []tGuard
 	i := 0
 	for ; i < len(body); i++ {
@@ -212,7 +215,22 @@ func leadingGuards(body []ast.Stmt, params []string) ([]tGuard, []ast.Stmt) {
 		}
 		gs = append(gs, g)
 	}
-	return gs, body[i:]
+	if i < len(body) {
+		if is, ok := body[i].(*ast.IfStmt); ok && is.Init == nil && len(is.Body.List) == 1 {
+			_, returns := is.Body.List[0].(*ast.ReturnStmt)
+			mentionsNil := false
+			ast.Inspect(is.Cond, func(n ast.Node) bool {
+				if id, ok := n.(*ast.Ident); ok && id.Name == "nil" {
+					mentionsNil = true
+				}
+				return true
+			})
+			if returns && mentionsNil {
+				return nil, nil, fmt.Errorf("guard `if %s {…}` is not of the shape `if <param>.<Field> == nil { return ErrX }`", types.ExprString(is.Cond))
+			}
+		}
+	}
+	return gs, body[i:], nil
 }
 
 // isErrorfReturn: `return fmt.Errorf(…)` / `return nil, fmt.Errorf(…)`.
@@ -400,7 +418,10 @@ func tablesPatch(repo string, o *tOut) error {
 		return fmt.Errorf("%s: patch.Do: expected 2 parameters", p.pos(do))
 	}
 	// shape: guards*, switch arg0.Op {…}, return fmt.Errorf(…)
-	pre, rest := leadingGuards(do.Body.List, params)
+	pre, rest, err := leadingGuards(do.Body.List, params)
+	if err != nil {
+		return fmt.Errorf("%s: patch.Do: %v", p.pos(do), err)
+	}
 	if len(rest) != 2 {
 		return fmt.Errorf("%s: patch.Do: expected `nil guards; switch obj.Op {…}; return fmt.Errorf(…)`, found %d statements after the guards", p.pos(do), len(rest))
 	}
@@ -504,7 +525,10 @@ func handlerGuards(p *tPkg, name string, depth int) ([]tGuard, string, error) {
 	if len(params) < 2 {
 		return nil, "", fmt.Errorf("%s: handler %s: expected (obj, target, …) parameters", p.pos(fd), name)
 	}
-	gs, rest := leadingGuards(fd.Body.List, params)
+	gs, rest, err := leadingGuards(fd.Body.List, params)
+	if err != nil {
+		return nil, "", fmt.Errorf("%s: %s: %v", p.pos(fd), name, err)
+	}
 	if len(gs) == 0 && len(rest) == 1 && depth < 3 {
 		if rs, ok := rest[0].(*ast.ReturnStmt); ok && len(rs.Results) == 1 {
 			if c, ok := rs.Results[0].(*ast.CallExpr); ok && len(c.Args) >= 2 {
